@@ -118,14 +118,109 @@ func dumpMutable(a *Analyzer) {
 	}
 }
 
+// componentTypes: the struct types an object of which can live as long as the node: reachable through fields (pointers,
+// values, map / slice / channel elements, library interfaces' implementations excluded) from the two loops. A small value
+// type used as a local variable of one function is not among them.
+func componentTypes(a *Analyzer) map[string]bool {
+	out := map[string]bool{}
+	var visit func(t types.Type, depth int)
+	visit = func(t types.Type, depth int) {
+		if depth > 12 {
+			return
+		}
+		switch x := t.(type) {
+		case *types.Pointer:
+			visit(x.Elem(), depth+1)
+		case *types.Slice:
+			visit(x.Elem(), depth+1)
+		case *types.Array:
+			visit(x.Elem(), depth+1)
+		case *types.Map:
+			visit(x.Key(), depth+1)
+			visit(x.Elem(), depth+1)
+		case *types.Chan:
+			visit(x.Elem(), depth+1)
+		case *types.Named:
+			if x.Obj().Pkg() == nil || !inLibraryScope(x.Obj().Pkg().Path()) || isSpecTypesPkg(x.Obj().Pkg().Path()) {
+				return
+			}
+			st, ok := x.Underlying().(*types.Struct)
+			if !ok {
+				if it, isI := x.Underlying().(*types.Interface); isI {
+					// the library's own implementations of a library interface (logger, scheduler, handlers)
+					for _, f := range a.P.Funcs {
+						if f.Signature.Recv() == nil {
+							continue
+						}
+						rt := f.Signature.Recv().Type()
+						if types.Implements(rt, it) {
+							if k := structKey(derefType(rt)); !out[k] {
+								visit(rt, depth+1)
+							}
+						}
+					}
+				}
+				return
+			}
+			k := structKey(x)
+			if out[k] {
+				return
+			}
+			out[k] = true
+			for i := 0; i < st.NumFields(); i++ {
+				visit(st.Field(i).Type(), depth+1)
+			}
+		}
+	}
+	if pkg := a.P.ByPath[modPath]; pkg != nil {
+		for _, n := range []string{"MainLoop", "WorkerLoop"} {
+			if tn, ok := pkg.Types.Scope().Lookup(n).(*types.TypeName); ok {
+				visit(tn.Type(), 0)
+			}
+		}
+	}
+	// per-term objects are created by functions, not held in fields all the way: add the types the inventory already names
+	for k := range mutableRef {
+		if i := strings.LastIndex(k, "."); i > 0 {
+			out[k[:i]] = true
+		}
+	}
+	for _, f := range a.P.Funcs {
+		// and everything reachable from what the constructors of those types store
+		if f.Signature.Recv() != nil {
+			if k := structKey(derefType(f.Signature.Recv().Type())); out[k] {
+				if n, ok := derefType(f.Signature.Recv().Type()).(*types.Named); ok {
+					if st, ok := n.Underlying().(*types.Struct); ok {
+						for i := 0; i < st.NumFields(); i++ {
+							visit(st.Field(i).Type(), 1)
+						}
+					}
+				}
+			}
+		}
+	}
+	return out
+}
+
+func derefType(t types.Type) types.Type {
+	if p, ok := t.(*types.Pointer); ok {
+		return p.Elem()
+	}
+	return t
+}
+
 func runMutableState(a *Analyzer, r *Results) {
 	if len(mutableRef) == 0 {
 		r.Undecided = append(r.Undecided, "no reference table of mutable fields (S0.state)")
 		return
 	}
+	comp := componentTypes(a)
 	byField := map[string][]mutSite{}
 	var order []string
 	for _, m := range mutableFields(a) {
+		if !comp[m.typ] {
+			continue // a short-lived helper value, not part of a component
+		}
 		k := m.typ + "." + m.field
 		if _, ok := byField[k]; !ok {
 			order = append(order, k)
